@@ -191,3 +191,35 @@ func vfSymAlign(alphabet, n, L int, ok func(uint8) bool) (*align, [][]uint8) {
 	}
 	return al, orig
 }
+
+// vfOrfBag: two nucleotide sequences, the first with an ORF on the forward strand, the second
+// with one on the reverse strand; one residue of one of them (symbolic position) is an
+// arbitrary nucleotide code, RNA's U/u included.
+func vfOrfBag() (*seqbag, []string) {
+	in := [][]uint8{[]uint8("CATGGAATAAG"), []uint8("TTTATTCCATA")}
+	w := nondetRange(0, 1)
+	p := nondetRange(0, len(in[w])-1)
+	c := nondetByte()
+	assume(vfIsIupacDNA(c, true) && c != '-' && c != '.' && c != '*')
+	in[w][p] = c
+	sb := NewSeqBag(NUCLEOTIDS)
+	saved := make([]string, 2)
+	for i := range in {
+		if err := sb.AddSequenceChar(vfNames[i], in[i], ""); err != nil {
+			panic("harness: " + err.Error())
+		}
+		saved[i] = string(in[i])
+	}
+	return sb, saved
+}
+
+func vfBagUnchanged(sb *seqbag, saved []string) bool {
+	ok := sb.NbSequences() == len(saved)
+	for i := range saved {
+		s, found := sb.GetSequenceById(i)
+		name, _ := sb.GetSequenceNameById(i)
+		ok = ok && found && s == saved[i] && name == vfNames[i]
+	}
+	return ok
+}
+
